@@ -58,8 +58,8 @@ add("tok_g0_tokch",    "tokparam", "AtomsTokCh",   5, (0, 64),                  
 add("up_f64_qm",       "uriparams", "AtomsQm",     5, (64,), ALL,      pcaps=(0, 1, 2))
 add("up_f72_qm",       "uriparams", "AtomsQm",     5, (72,), NOSTABLE, pcaps=(0, 1, 2))
 add("up_f64_p1_qm",    "uriparams", "AtomsQm",     6, (64,), ALL,      pcaps=(1,))
-add("up_f64_names",    "uriparams", "AtomsNames",  7, (64,), ALL,      pcaps=(0, 1, 2))
-add("up_f72_names",    "uriparams", "AtomsNames",  7, (72,), NOSTABLE, pcaps=(0, 1, 2))
+add("up_f64_names",    "uriparams", "AtomsNames",  7, (64,), ALL,      pcaps=(1, 2))
+add("up_f72_names",    "uriparams", "AtomsNames",  6, (72,), NOSTABLE, pcaps=(0, 1, 2))
 add("up_f64_names2",   "uriparams", "AtomsNames2", 10, (64,), ALL,     pcaps=(0, 1, 2))
 add("up_f64_lstq",     "uriparams", "AtomsLstQ",   6, (64,), ALL,      pcaps=(0, 1, 2))
 add("up_f72_lstq",     "uriparams", "AtomsLstQ",   6, (72,), NOSTABLE, pcaps=(0, 1, 2))
